@@ -595,7 +595,7 @@ example : applyAt .hole [] [.loop (seqs (exitLoopBody ++ [.ite .cycle .skip]))] 
   rfl
 
 example : Reachable (seqs [.region rP (seqs [.loop (seqs exitLoopBody)]), .ret]) :=
-  Reachable.step (c := .hole) (pre := []) (mid := [.loop (seqs exitLoopBody)]) (post := [.ret])
+  Reachable.step (c := .hole) (pre := []) (mid := [.loop (seqs exitLoopBody)]) (post := [.ret]) (r := rP)
     (Reachable.init (by decide)) (by rfl)
 
 /-- the loop body with the EXIT is refused by the fixed rule, accepted by the pinned rule. -/
@@ -612,7 +612,7 @@ example : validate .profile [] [] = .empty := by decide
 
 /-- the trace of an accepted program under an oracle that takes the EXIT in the 2nd iteration. -/
 example : (run (fun k => if k = 0 then 3 else if k = 2 then 1 else 0)
-    (.region rP (.loop (.region rE (.basic false)) |>.seq (.loop (seqs exitLoopBody))))).ev =
+    (.region rP (.seq (.loop (.region rE (.basic false))) (.loop (seqs exitLoopBody))))).ev =
     [.start 0, .start 1, .stop 1, .start 1, .stop 1, .start 1, .stop 1, .stop 0] := by decide
 
 example : dyckCheck [] [.start 0, .start 1, .stop 1, .stop 0] = true := by decide
@@ -629,6 +629,7 @@ def exitWitness : Stmt := seqs [.loop (seqs [.region rP (seqs exitLoopBody)])]
 
 theorem exitWitness_reachable_pinned : ReachablePinned exitWitness :=
   ReachablePinned.step (c := .seqL (.loopB .hole) .skip) (pre := []) (mid := exitLoopBody) (post := [])
+    (r := rP)
     (ReachablePinned.init (by decide)) (by rfl)
 
 /-- one iteration, condition true: `PreStart`, `EXIT` — `PostEnd` is never called. -/
